@@ -120,6 +120,7 @@ MAKE = {
     "mixint": lambda o: (o + OFF + 0) if o < 0 else (2 ** 63 + o),   # some keys fit a C long, some do not
     "ustr": lambda o: "\u043a\u043b\u044e\u0447%015d" % (o + OFF),   # exact str outside Latin-1 (2-byte kind), long common prefix
     "astr": lambda o: "\U0001d400%015d" % (o + OFF),               # exact str with an astral character (4-byte kind)
+    "tuple": lambda o: (o + OFF, "t"),                # composite keys (rich comparison; KeyError(tuple) is a special case of the exception machinery)
     "subint": lambda o: RevInt(OFF - o),              # int subclass, reversed order: model order o <-> raw value OFF - o
     "substr": _ci,                                    # str subclass, case-insensitive order
 }
@@ -130,6 +131,7 @@ def ord_of(flav, k):
     if flav == "mixint": return (k - 2 ** 63) if k >= 2 ** 63 else (k - OFF)
     if flav == "ustr": return int(k[4:]) - OFF
     if flav == "astr": return int(k[1:]) - OFF
+    if flav == "tuple": return k[0] - OFF
     if flav == "subint": return OFF - int(k)
     if flav == "substr": return int("".join(str("abcdefghij".index(c)) for c in str(k).lower())) - OFF
     return k // (2 ** 70) - OFF
@@ -358,6 +360,14 @@ class Exec:
             else: d[o] = (self.kser(k), self.vser(v))
             del k, v
             self.need_after = True; return "ok"
+        if op == "repeatset":
+            k = self.key(a[0]); v = self.val(a[1]); o = ord_of(self.flav, k); n = int(a[2])
+            for _ in range(n): t[k] = v
+            self.epoch += n
+            if o in d: d[o] = (d[o][0], self.vser(v))
+            else: d[o] = (self.kser(k), self.vser(v))
+            del k, v
+            self.need_after = True; return "ok"
         if op in ("badset", "badget", "baddel", "badin"):
             # a key whose comparison raises: the call must raise TypeError, change nothing and keep no reference
             ser = int(a[0])
@@ -565,7 +575,7 @@ class Exec:
 # ---------------------------------------------------------------- generators
 def gen_case(r, n, kind):
     mode = r.pick(["type", "subclass", "wrapper", "wrapper"])
-    flav = r.pick(["int", "int", "str", "custom", "bigint", "mixint", "subint", "substr", "ustr", "astr"])
+    flav = r.pick(["int", "int", "str", "custom", "bigint", "mixint", "subint", "substr", "ustr", "astr", "tuple"])
     yield "cfg mode " + mode
     yield "cfg flavour " + flav
     caps = [4, 4, 4, 5, 5, 6, 7, 8, 9, 16, 33, 64, 128, 4 + r.below(40)]
@@ -653,6 +663,11 @@ def gen_case(r, n, kind):
             nm = "i%d" % (len(iters) if len(iters) < 4 else r.below(4))
             if nm not in iters: iters.append(nm)
             yield "C iter new %s %s" % (nm, r.pick(["keys", "items"]))      # a fresh iterator just before the next mutation
+            if r.chance(4) and shadow:
+                # drive the modification stamp through 2^16 (and a little beyond) while the iterator is held
+                o = r.pick(sorted(shadow)); v = val(o); shadow[o] = int(v) if v != "0" else 1
+                yield "C repeatset %s %s %d" % (newkey(o), v, r.pick([65536, 65536, 65535, 65537, 131072]))
+                yield "C iter next " + nm
     for nm in iters[:3]:
         yield "C iter next " + nm
     yield "C dump"
